@@ -372,6 +372,7 @@ func (l c19Line) group() string { return fmt.Sprintf("%s/%d#%d", l.Script, l.Pos
 type c19Span struct {
 	Script   string
 	Pos      int
+	Occ      int
 	Reqs     []modelreg.ReqLog
 	Content  []string // layout changes (names, sizes)
 	Touched  []string // layout files rewritten (mtime only)
@@ -417,7 +418,7 @@ func (c *c19Capture) flush() {
 		return
 	}
 	log := c.rt.Log()
-	sp := c19Span{Script: c.curScr, Pos: c.cur}
+	sp := c19Span{Script: c.curScr, Pos: c.cur, Occ: c.curOcc}
 	if len(log) > c.reqSeen {
 		sp.Reqs = log[c.reqSeen:]
 		c.reqSeen = len(log)
